@@ -21,6 +21,22 @@ Theorem C15_unique_live_all_schedules :
 Proof. intros pre ts sched H. exact (unique_live_all_schedules MaxAttempts pre ts sched H). Qed.
 Print Assumptions C15_unique_live_all_schedules.
 
+(* the node-id allocator is the same loop with the fixed candidate list node-0001..node-1000 and as many attempts as the range has
+   slots (both regenerated from the code): the four clauses above hold for it as well, for ANY set of slots held by other live nodes
+   (pre), any number of allocators and any schedule of their SetNX / Delete calls — in particular an allocation that finds the range
+   full, and a Release after it, leave the store exactly as it was (clause 3) and never touch a live node's slot (clause 4).
+   (Corr/C15.check_node replays allocate / Release histories of the real NodeIDAllocator on exactly this instance.) *)
+Theorem C15_node_ids_unique_all_schedules :
+  forall (pre : markers) (ts : list gen) (sched : list nat),
+  (forall g, In g ts -> held g = []) ->
+  let s := grun (N.to_nat (NodeIDMax - NodeIDMin + 1)) pre ts sched in
+  NoDup (all_held (snd s)) /\
+  (forall i, In i (all_held (snd s)) -> fst s i = true) /\
+  (forall i, fst s i = true -> pre i = true \/ In i (all_held (snd s))) /\
+  (forall i, pre i = true -> fst s i = true /\ ~ In i (all_held (snd s))).
+Proof. intros pre ts sched H. exact (unique_live_all_schedules (N.to_nat (NodeIDMax - NodeIDMin + 1)) pre ts sched H). Qed.
+Print Assumptions C15_node_ids_unique_all_schedules.
+
 (* the non-atomic fallback (a store WITHOUT set-if-absent) is only safe within one generator instance:
    two instances, each with its own mutex, hand out the same id.  No shipped store takes this branch
    (side condition shipped_store_is_atomic); recorded as a refuted statement about that branch. *)
